@@ -160,6 +160,12 @@ func checkBinding(p *Prog, r *Report, ru *Rule, a *connectAnchors) {
 					}
 				case *ssa.DebugRef:
 					continue
+				case *ssa.Phi:
+					/* One of the two addresses, picked by direction and
+					only stored and loaded through (us, other := …). */
+					if phiOnlyDereferenced(x, 0) {
+						continue
+					}
 				}
 				ru.Bad(fnName(fn)+":&"+fv.Name(), posOf(ref), "address of Broker.%s escapes to %T", fv.Name(), ref)
 			}
@@ -1167,4 +1173,32 @@ func makeDelivers(isOch func(*types.Var) bool) func(f *ssa.Function, depth int) 
 		return false
 	}
 	return delivers
+}
+
+// phiOnlyDereferenced: the pointer-valued phi is only loaded from and stored
+// through (or merged into other such phis): the address goes nowhere.
+func phiOnlyDereferenced(ph *ssa.Phi, depth int) bool {
+	if depth > 3 || nil == ph.Referrers() {
+		return false
+	}
+	for _, r := range *ph.Referrers() {
+		switch y := r.(type) {
+		case *ssa.UnOp:
+			if token.MUL != y.Op {
+				return false
+			}
+		case *ssa.Store:
+			if y.Addr != ssa.Value(ph) || y.Val == ssa.Value(ph) {
+				return false
+			}
+		case *ssa.DebugRef:
+		case *ssa.Phi:
+			if y != ph && !phiOnlyDereferenced(y, depth+1) {
+				return false
+			}
+		default:
+			return false
+		}
+	}
+	return true
 }
